@@ -300,6 +300,62 @@ func genCliCase(t *rapid.T) cliCase {
 			c.P1, c.Fam1, c.P2, c.Fam2 = sit, "survivor", mul, "multiplier"
 		}
 	}
+	if !manyRounds && !bombedSplitter && !multiplier && l >= 3 && m >= 8 && gen.Rare(t, "overlay", 3) {
+		// the second warrior is loaded on top of the first: what it brings - blank cells included -
+		// replaces what was there. The first warrior walks through all its cells; the second one is
+		// some blank cells with a small body before or behind them.
+		n1 := rapid.IntRange(2, min(l, 6)).Draw(t, "ovn1")
+		var walk []rc.Item
+		for i := 0; i < n1-1; i++ {
+			if legacy {
+				walk = append(walk, ins("JMP", "$", 1, "$", 0))
+			} else {
+				walk = append(walk, ins("NOP", "$", 0, "$", 0))
+			}
+		}
+		walk = append(walk, ins("JMP", "$", int64(-(n1 - 1)), "$", 0))
+		blank := ins("DAT", "$", 0, "$", 0)
+		if legacy {
+			blank = ins("DAT", "#", 0, "#", 0)
+		}
+		k := rapid.IntRange(1, l-1).Draw(t, "ovblank")
+		if k > 4 {
+			k = 4
+		}
+		var body []rc.Item
+		switch rapid.IntRange(0, 2).Draw(t, "ovbody") {
+		case 0:
+			body = []rc.Item{ins("JMP", "$", 0, "$", 0)}
+		case 1:
+			body = []rc.Item{ins("SPL", "$", 0, "$", 0), ins("JMP", "$", -1, "$", 0)}
+		default:
+			body = []rc.Item{ins("SPL", "$", 0, "$", 0)}
+		}
+		if k+len(body) > l {
+			body = body[:1]
+		}
+		var over []rc.Item
+		if rapid.Bool().Draw(t, "ovblankfirst") {
+			// blank cells first: placed inside the first warrior
+			for i := 0; i < k; i++ {
+				over = append(over, blank)
+			}
+			over = append(over, body...)
+			over = append(over, rc.Item{Kind: rc.KOrg, Expr: rc.Toks(rc.N(int64(k)))})
+			fl.F = rapid.IntRange(1, n1-1).Draw(t, "ovF")
+		} else {
+			// body first, blank cells behind it: placed so that the blank cells wrap onto cell 0
+			over = append(over, body...)
+			for i := 0; i < k; i++ {
+				over = append(over, blank)
+			}
+			fl.F = m - len(body) - rapid.IntRange(0, k-1).Draw(t, "ovback")
+		}
+		c.P1, c.Fam1, c.P2, c.Fam2 = rc.Program{Items: walk}, "walker", rc.Program{Items: over}, "overlay"
+		if fl.R == 0 && rapid.Bool().Draw(t, "ovrounds") {
+			fl.R = 2
+		}
+	}
 	if !bombedSplitter && !multiplier && l >= 3 && gen.Rare(t, "trapvssplitter", 3) {
 		// a warrior that dies as soon as a foreign process runs through its unused first cell,
 		// against one that fills its whole process queue: any task that strays is noticed
